@@ -1,6 +1,7 @@
 #!/bin/bash
 # usage: tools/seedtest.sh <patch.diff> <Cnn> [tier]  -- applies a seeded change to /repo, runs the check, reverts.
 P=$1; C=$2; T=${3:-quick}
+exec 9>/tmp/repo.lock; flock 9      # one user of /repo's working tree at a time (shared with tools/sweep.sh)
 cd /repo || exit 2
 if [ -n "$(git status --porcelain --untracked-files=no)" ]; then echo "repo not clean"; exit 2; fi
 git apply "$P" || { echo "patch does not apply"; exit 2; }
